@@ -5,9 +5,12 @@ import FeatherModel.Model.ClassReadPool
 (`read_annotations_attribute`, `read_element_values_named`, `read_element_values_unnamed`,
 `read_element_value_unnamed`, `read_type_annotations_attribute`, `TargetInfoRead`, `read_type_path`)
 
-The Rust functions recurse on the nesting of `@`/`[` element values; the nesting is bounded by the number of
-input bytes (every level reads at least its tag).  The model takes fuel `2 * bytes + 2`: one unit per loop
-iteration and one per element value; it cannot run out (`err` in that unreachable case).
+The Rust functions recurse on the nesting of `@`/`[` element values and carry the nesting `depth`:
+`read_element_values_named` / `read_element_values_unnamed` bail when `depth > MAX_ELEMENT_VALUE_DEPTH = 255`
+(`check_element_value_depth`), nested annotations and arrays are read at `depth + 1`, the pairs of a top-level
+annotation and an `AnnotationDefault` value at depth 0.  For termination the model additionally takes fuel
+`2 * bytes + 2`: one unit per loop iteration and one per element value; it cannot run out (`err` in that unreachable
+case).
 -/
 
 namespace ClassRead
@@ -54,11 +57,15 @@ def readConstElem (p : Pool) (tag : Nat) : Rd ElemVal := fun s => do
 def isConstTag (tag : Nat) : Bool :=
   tag == 66 || tag == 67 || tag == 68 || tag == 70 || tag == 73 || tag == 74 || tag == 83 || tag == 90 || tag == 115
 
+/-- `MAX_ELEMENT_VALUE_DEPTH` -/
+def maxElemDepth : Nat := 255
+
 mutual
-/-- `read_element_value_unnamed` (the part after the optional name of `read_element_values_named` is identical) -/
-def readElemVal (p : Pool) : Nat → Rd ElemVal
-  | 0, _ => err
-  | fuel + 1, s => do
+/-- `read_element_value_unnamed` at nesting `depth` (the part after the optional name of `read_element_values_named`
+is identical); arguments: fuel, depth -/
+def readElemVal (p : Pool) : Nat → Nat → Rd ElemVal
+  | 0, _, _ => err
+  | fuel + 1, d, s => do
     let (tag, s) ← u8 s
     if isConstTag tag then readConstElem p tag s
     else if tag = 101 then do
@@ -74,31 +81,38 @@ def readElemVal (p : Pool) : Nat → Rd ElemVal
     else if tag = 64 then do
       let (t, s) ← u16 s
       let ty ← p.getUtf8 t
-      let (n, s) ← u16 s
-      let (pairs, s) ← readNamedPairs p fuel n s
-      pure (.anno (.mk ty pairs), s)
+      -- `read_element_values_named(.., depth + 1)`: `check_element_value_depth` first
+      if d + 1 > maxElemDepth then err
+      else do
+        let (n, s) ← u16 s
+        let (pairs, s) ← readNamedPairs p fuel (d + 1) n s
+        pure (.anno (.mk ty pairs), s)
     else if tag = 91 then do
-      let (n, s) ← u16 s
-      let (vs, s) ← readUnnamed p fuel n s
-      pure (.arr vs, s)
+      -- `read_element_values_unnamed(.., depth + 1)`
+      if d + 1 > maxElemDepth then err
+      else do
+        let (n, s) ← u16 s
+        let (vs, s) ← readUnnamed p fuel (d + 1) n s
+        pure (.arr vs, s)
     else err
-/-- the loop of `read_element_values_named` (count already read) -/
-def readNamedPairs (p : Pool) : Nat → Nat → Rd (List (JStr × ElemVal))
-  | 0, _, _ => err
-  | _ + 1, 0, s => ok ([], s)
-  | fuel + 1, n + 1, s => do
+/-- the loop of `read_element_values_named` at nesting `depth` (depth checked and count read by the caller);
+arguments: fuel, depth, remaining count -/
+def readNamedPairs (p : Pool) : Nat → Nat → Nat → Rd (List (JStr × ElemVal))
+  | 0, _, _, _ => err
+  | _ + 1, _, 0, s => ok ([], s)
+  | fuel + 1, d, n + 1, s => do
     let (ni, s) ← u16 s
     let name ← p.getUtf8 ni
-    let (v, s) ← readElemVal p fuel s
-    let (rest, s) ← readNamedPairs p fuel n s
+    let (v, s) ← readElemVal p fuel d s
+    let (rest, s) ← readNamedPairs p fuel d n s
     pure ((name, v) :: rest, s)
-/-- the loop of `read_element_values_unnamed` (count already read) -/
-def readUnnamed (p : Pool) : Nat → Nat → Rd (List ElemVal)
-  | 0, _, _ => err
-  | _ + 1, 0, s => ok ([], s)
-  | fuel + 1, n + 1, s => do
-    let (v, s) ← readElemVal p fuel s
-    let (rest, s) ← readUnnamed p fuel n s
+/-- the loop of `read_element_values_unnamed` at nesting `depth` (depth checked and count read by the caller) -/
+def readUnnamed (p : Pool) : Nat → Nat → Nat → Rd (List ElemVal)
+  | 0, _, _, _ => err
+  | _ + 1, _, 0, s => ok ([], s)
+  | fuel + 1, d, n + 1, s => do
+    let (v, s) ← readElemVal p fuel d s
+    let (rest, s) ← readUnnamed p fuel d n s
     pure (v :: rest, s)
 end
 
@@ -109,14 +123,14 @@ def readAnnotation (p : Pool) : Rd Annotation := fun s => do
   let (t, s) ← u16 s
   let ty ← p.getUtf8 t
   let (n, s) ← u16 s
-  let (pairs, s) ← readNamedPairs p (annoFuel s) n s
+  let (pairs, s) ← readNamedPairs p (annoFuel s) 0 n s
   pure (.mk ty pairs, s)
 
 /-- `read_annotations_attribute` -/
 def readAnnotations (p : Pool) : Rd (List Annotation) := readVec16 (readAnnotation p)
 
 /-- `AnnotationDefault`: `read_element_value_unnamed` -/
-def readAnnotationDefault (p : Pool) : Rd ElemVal := fun s => readElemVal p (annoFuel s) s
+def readAnnotationDefault (p : Pool) : Rd ElemVal := fun s => readElemVal p (annoFuel s) 0 s
 
 /-! ## type annotations -/
 
